@@ -10,7 +10,10 @@
      SRead pl          io::Println(pl) / let c: T = pl;       (checkExpr -> checkAccess read)
      SWrite pl         pl = v;                                (checkAssignStmt -> checkWriteTarget)
      SCall args        f(a1, .., an); ai = &pl | &'pl | pl | r   (ExprStmt, temporaries of withTempScope)
-     SBlock b | SIf c b1 b2 | SWhile c b                      (c = optional place read by the condition)
+     SBlock b | SIf c b1 b2 | SWhile c b        c = cT | pl >= 0 (reads place pl) | pS(r) (uses reference r)
+     `if c1 {A} else if c2 {B} else {C}` is SIf c1 A [SIf c2 B C]: checkIfStmt hands a nested *hir.IfStmt to checkNode,
+     which does what checkBlock does for a block holding only that if statement (its scope declares nothing, so the
+     push/pop and releaseExpiredRefs are no-ops) and collectRefUsesNode descends into both in the same way.
      SRetBor m pl      return &pl / &'pl;     SRetRef r   return r;
    Places are a base variable and a path of field / index segments.  Bases are never reference variables
    (re-borrow through a reference parameter is an open finding, see harness/meta/C07.findings.json) and the
@@ -173,6 +176,10 @@ Definition bindRefFromIdent (r2 r : nat) (s : st) : st :=
 (* borrow.go checkReturnLifetime *)
 Definition checkReturnBase (b : nat) (s : st) : st := if mem b (locals s) then addErr EReturnLocal s else s.
 
+(* condition of if / while: a bool parameter, a comparison reading a place, or a call taking a reference *)
+Inductive cond := CNone | CPl (pl : place) | CRef (r : nat).
+Definition cond_mentions (c : cond) : list nat := match c with CRef r => [r] | _ => [] end.
+
 Inductive arg := ABor (m : bool) (pl : place) | ARd (pl : place) | ARef (r : nat).
 
 Inductive stmt :=
@@ -185,8 +192,8 @@ Inductive stmt :=
 | SWrite (pl : place)
 | SCall (args : list arg)
 | SBlock (b : list stmt)
-| SIf (c : option place) (b1 b2 : list stmt)
-| SWhile (c : option place) (b : list stmt)
+| SIf (c : cond) (b1 b2 : list stmt)
+| SWhile (c : cond) (b : list stmt)
 | SRetBor (m : bool) (pl : place)
 | SRetRef (r : nat).
 
@@ -199,8 +206,8 @@ Fixpoint mentions (s : stmt) : list nat :=
   | SCopy _ r | SUse r | SWt r | SRetRef r => [r]
   | SCall args => flat_map arg_mentions args
   | SBlock b => flat_map mentions b
-  | SIf _ b1 b2 => flat_map mentions b1 ++ flat_map mentions b2
-  | SWhile _ b => flat_map mentions b
+  | SIf c b1 b2 => cond_mentions c ++ flat_map mentions b1 ++ flat_map mentions b2
+  | SWhile c b => cond_mentions c ++ flat_map mentions b
   end.
 Definition mentionsL (b : list stmt) : list nat := flat_map mentions b.
 
@@ -245,8 +252,8 @@ Definition checkArg (s : st) (a : arg) : st :=
   | ARef _ => s
   end.
 
-Definition checkCond (c : option place) (s : st) : st :=
-  match c with Some pl => checkRead pl s | None => s end.
+Definition checkCond (c : cond) (s : st) : st :=
+  match c with CPl pl => checkRead pl s | _ => s end.
 
 (* borrow.go checkNode / checkBlock *)
 Fixpoint checkNode (s : stmt) (x : st) {struct s} : st :=
@@ -362,8 +369,8 @@ Fixpoint safeArgs (K : list nat) (G : list loan) (args : list arg) : bool :=
   | ARef _ :: rest => safeArgs K G rest
   end.
 
-Definition safeCond (K : list nat) (G : list loan) (c : option place) : bool :=
-  match c with Some pl => negb (conflict_read K G pl) | None => true end.
+Definition safeCond (K : list nat) (G : list loan) (c : cond) : bool :=
+  match c with CPl pl => negb (conflict_read K G pl) | _ => true end.
 
 (* safeS L K G s : statement s is safe when K = references used after s (in the continuation), G = loans of the
    references in scope, L = variables that are locals of the function. Returns the verdict and the extended G. *)
@@ -393,11 +400,11 @@ Fixpoint safeS (L : list nat) (K : list nat) (G : list loan) (s : stmt) {struct 
   | SCall args => (safeArgs (flat_map arg_mentions args ++ K) G args, G)
   | SBlock b => (safeL (removeAll (declsDeep b) K) b G, G)
   | SIf c b1 b2 =>
-      (safeCond (flat_map mentions b1 ++ flat_map mentions b2 ++ K) G c
+      (safeCond (cond_mentions c ++ flat_map mentions b1 ++ flat_map mentions b2 ++ K) G c
        && safeL (removeAll (declsDeep b1) K) b1 G && safeL (removeAll (declsDeep b2) K) b2 G, G)
   | SWhile c b =>
-      (safeCond (flat_map mentions b ++ K) G c
-       && safeL (removeAll (declsDeep b) (flat_map mentions b ++ K)) b G, G)
+      (safeCond (cond_mentions c ++ flat_map mentions b ++ K) G c
+       && safeL (removeAll (declsDeep b) (cond_mentions c ++ flat_map mentions b ++ K)) b G, G)
   | SRetBor m pl =>
       (negb (conflict_borrow K G (fst pl) (snd pl) m) && negb (mem (fst pl) L), G)
   | SRetRef r =>
